@@ -5,9 +5,10 @@ set -u
 export GOFLAGS=-mod=mod GOPROXY=off GOSUMDB=off GOTOOLCHAIN=local
 SNAP=$(mktemp -d /tmp/verif-snap-XXXXXX)
 rsync -a --exclude .git --exclude replays /verif/ "$SNAP/"
-OUT=/verif/seeded/RESULTS.txt
+OUT=/verif/seeded/RESULTS${2:-}.txt
 : > "$OUT.tmp"
-for d in /verif/seeded/C*-*/; do
+PAT=${1:-C*-*}
+for d in /verif/seeded/$PAT/; do
   n=$(basename "$d"); P=${n%-*}
   tmp=$(mktemp -d /tmp/seedrepo-XXXXXX)
   rsync -a --exclude .git /repo/ "$tmp/"
